@@ -492,3 +492,31 @@ func PutContainerSize(epoch, cid, usedSize, pubKey)
   ensures [C20] exists i Int :: 0 <= i && i < len(snap(old(xcalls("snapshot")).len)) && snap(old(xcalls("snapshot")).len)[i].Info[2:35] == pubKey
   ensures [C20] forall k Bytes {store.opt(k)} :: !prefix("est", k) && !prefix("cnr", k) ==> store.opt(k) == old(store).opt(k)
 @*/
+
+/*@
+module upgrade
+props C16
+use common core
+use common vote
+dialect neovm
+
+// C16: an upgrade runs only from a supported older version: oldest supported <= deployed version < new version.
+pure lastarg(d Any) Int = asint(aslist(d)[len(aslist(d)) - 1])
+
+// the migration of every update moves each 32-byte key k (container id) to "x"++k and each 57-byte key k (owner ++ id) to
+// "o"++k with its value and touches no key of another length: get/owner/list/count read the same data through the new layout
+func _deploy(data, isUpdate)
+  ensures [C16] isUpdate ==> PrevVersion <= lastarg(data) && lastarg(data) < Version
+  ensures [C16] isUpdate ==> forall a Bytes {store.opt("x" ++ a)} :: len(a) == 32 && old(store).has(a) ==> store.opt("x" ++ a) == old(store).opt(a)
+  ensures [C16] isUpdate ==> forall a Bytes {store.opt("o" ++ a)} :: len(a) == 57 && old(store).has(a) ==> store.opt("o" ++ a) == old(store).opt(a)
+  ensures [C16] isUpdate ==> forall a Bytes {store.opt(a)} :: len(a) == 32 || len(a) == 57 ==> !store.has(a)
+  ensures [C16] isUpdate ==> forall k Bytes {store.opt(k)} :: len(k) != 32 && len(k) != 33 && len(k) != 57 && len(k) != 58 && k != "notary" && k != "ballots" ==> store.opt(k) == old(store).opt(k)
+  ensures [C16] isUpdate ==> notifs == old(notifs)
+  loop 0
+    invariant forall j Int {$it.key(j)} :: 0 <= j && j < $it.pos && len($it.key(j)) == 32 ==> !store.has($it.key(j)) && store.opt("x" ++ $it.key(j)) == old(store).opt($it.key(j))
+    invariant forall j Int {$it.key(j)} :: 0 <= j && j < $it.pos && len($it.key(j)) == 57 ==> !store.has($it.key(j)) && store.opt("o" ++ $it.key(j)) == old(store).opt($it.key(j))
+    invariant forall k Bytes {store.opt(k)} :: (len(k) == 32 || len(k) == 57) && old(store).has(k) && $it.idx(k) >= $it.pos ==> store.opt(k) == old(store).opt(k)
+    invariant forall k Bytes {store.opt(k)} :: (len(k) == 32 || len(k) == 57) && !old(store).has(k) ==> !store.has(k)
+    invariant forall k Bytes {store.opt(k)} :: len(k) != 32 && len(k) != 33 && len(k) != 57 && len(k) != 58 ==> store.opt(k) == old(store).opt(k)
+    invariant notifs == old(notifs)
+@*/
